@@ -37,7 +37,11 @@ Check(e) ==
     ELSE \* dispatch
         LET silent == e[7] = 1 IN
         IF e[5] >= e[6] THEN "dispatch_outside_frame"
-        ELSE IF e[4] > Tr.maxn \/ (~silent /\ e[4] >= Tr.maxn) THEN "dispatch_beyond_max_nesting"
+        \* the loops never dispatch at or beyond maxNesting; a rule that consults the terminator chain (silent)
+        \* does so at the level of the tokens it has pushed so far - at most two below its own (table_open,
+        \* tbody_open), one for a list - so silent block dispatches are bounded by maxNesting + 2
+        ELSE IF (~silent /\ e[4] >= Tr.maxn) \/ (silent /\ e[4] > Tr.maxn + (IF e[2] = "b" THEN 2 ELSE 0))
+             THEN "dispatch_beyond_max_nesting"
         ELSE IF ~silent /\ KeyOf(e) \in DOMAIN last /\ e[5] <= last[KeyOf(e)] THEN "cursor_did_not_advance"
         ELSE "ok"
 
